@@ -14,6 +14,7 @@ def main(tier):
     asserts.throw_types(P, rep, R, floor=12)
     # guards that keep queries from crashing or producing NaN, as far as their shape decides it
     kernels.acos_clamp(P, rep)                 # NaN-absorbing clamp in front of acos
+    rep.attempt(asserts.indexed_store_bounds, P, rep)
     asserts.input_indexed_elements(P, rep)     # tables indexed by numbers from the file
     segments.table_provenance(P, rep)          # per-section tables have one shape (K2): no out-of-bounds read between sections
     sib.model_families(P, rep)                 # sibling implementations agree on their guards (zero-thickness, range, sentinel tests)
